@@ -31,6 +31,8 @@ Expected(t, v) ==
     [] v.kind = "bubble_sq" -> MapT(EvalD(t.d), Sq)
     [] v.kind = "bubble_1m" -> MapT(EvalD(t.d), OneMinus)
     \* a bubble whose function leaves the integers (multiplication by i) around boxes that hold integer arrays
+    \* bending all wires round (rigid transpose, either side): the matrix transpose with the wires reversed
+    [] v.kind \in {"transpose_l", "transpose_r"} -> TransposeT(EvalD(t.d))
     [] v.kind = "bubble_i" -> MapT(EvalDRe(t.d), LAMBDA z : GMul(z, <<0, 1>>))
     [] v.kind = "spider" -> SpiderT(v.n, v.m, v.dim)
     [] v.kind = "spider_fusion" -> SpiderT(v.n, v.m, v.dim)
@@ -46,6 +48,7 @@ J09(t) ==
        <<IF t.variants[v].exc # "" THEN "variant-raised"
          ELSE IF t.variants[v].kind = "interchange" THEN "evaluation-not-invariant-under-interchange"
          ELSE IF t.variants[v].kind = "normal_form" THEN "evaluation-not-invariant-under-normalisation"
+         ELSE IF t.variants[v].kind \in {"transpose_l", "transpose_r"} THEN "transpose-does-not-evaluate-to-the-transposed-matrix"
          ELSE IF t.variants[v].kind \in {"sum", "sum_then", "sum_tensor", "sum_dagger"} THEN "sum-is-not-the-entrywise-sum"
          ELSE IF t.variants[v].kind \in {"bubble_sq", "bubble_1m", "bubble_i"} THEN "bubble-is-not-the-entrywise-image"
          ELSE IF t.variants[v].kind \in {"spider", "spider_fusion"} THEN "spider-is-not-its-delta-tensor"
